@@ -127,7 +127,26 @@ POOLS = {
     "three":         dict(objs=[("f", 2.0, "m", None, None), ("f", 50.0, "cm", None, None), ("f", 4.0, "s", None, None)],
                           units=["m", "cm", "s"]),
 }
+# twins: two separately constructed quantities that merely hold the same number in the same unit.  Everything the
+# library remembers under a key made of values and units (instead of object identity) is shared by such twins; they
+# are explored with the probing alphabet (in-place methods, value queries, == and +) at every level, one level deeper
+# than the other pools, so "convert both the same way, then set an uncertainty on one" is a history of the space.
+TWIN_POOLS = {
+    "twin_scalar":      dict(objs=[("f", 5.0, "km", None, None), ("f", 5.0, "km", None, None)], units=["m", "km", "cm"]),
+    "twin_uncertainty": dict(objs=[("f", 5.0, "km", 0.5, None), ("f", 5.0, "km", 0.5, None)], units=["m", "km", "cm"]),
+    "twin_array":       dict(objs=[("a", [1.0, 2.0, 3.0], "m", None, None), ("a", [1.0, 2.0, 3.0], "m", None, None)],
+                             units=["m", "cm", "km"]),
+    "twin_temperature": dict(objs=[("f", 20.0, "Cel", None, None), ("f", 20.0, "Cel", None, None)],
+                             units=["K", "Cel", "degF"]),
+    "twin_level":       dict(objs=[("f", 23.0, "dBm", None, None), ("f", 23.0, "dBm", None, None)],
+                             units=["dBm", "mW", "dBW"]),
+}
+POOLS.update(TWIN_POOLS)
+
 FEATURES = {
+    "twin_scalar": ["twins", "same-unit"], "twin_uncertainty": ["twins", "same-unit", "uncertainty"],
+    "twin_array": ["twins", "same-unit", "array"], "twin_temperature": ["twins", "same-unit", "temperature"],
+    "twin_level": ["twins", "same-unit", "logarithmic"],
     "same_unit": ["same-unit"], "diff_unit": ["different-unit"], "compound": ["different-unit", "compound-unit"],
     "log_dB": ["logarithmic"], "log_dBm": ["logarithmic"],
     "log_fraction": ["logarithmic", "fraction-form"], "log_fraction_mixed": ["logarithmic", "fraction-form", "different-unit"], "angle": ["angle", "different-unit"],
@@ -501,7 +520,7 @@ def init_worker():
 def plan(tier, seed):
     shards = []
     for pname, p in POOLS.items():
-        nops = len(alphabet(pname, len(p["objs"])))
+        nops = len(alphabet(pname, len(p["objs"]), probe=pname in TWIN_POOLS))
         for k in range(nops):
             shards.append((pname, k, tier))
     shards += [(pname, "diff3", tier) for pname in POOLS]
@@ -548,7 +567,8 @@ def run_shard(desc):
     seen = {s0}
     if k == 0:
         sh.add_to_set("states", s0)
-    op1 = alphabet(pname, n0)[k]
+    twin = pname in TWIN_POOLS
+    op1 = alphabet(pname, n0, probe=twin)[k]
     frontier = []
     pool, rec, last, _ = run_history(pname, [op1])
     _account(sh, pname, [op1], pool, rec, last, n0)
@@ -559,13 +579,15 @@ def run_shard(desc):
             seen.add(s1)
             frontier.append(([op1], len(pool)))
     depth = 3 if tier == "thorough" else 2
+    if twin:
+        depth += 1
     nleaves = 0
     only = os.environ.get("C07_POOLS")                  # development aid: restrict the run to some pools
     if only and pname not in only.split(","):
         depth = 1
     for level in range(2, depth + 1):
         nxt = []
-        probe = level == 3
+        probe = level == 3 or twin
         for hist, n in frontier:
             for op in alphabet(pname, n, probe=probe):
                 h = hist + [op]
@@ -574,7 +596,7 @@ def run_shard(desc):
                 if rec is not None:
                     continue
                 s = canon(pname, pool)
-                if level <= 2:
+                if level <= 2 or (twin and level <= 3 and tier != "thorough"):
                     sh.add_to_set("states", s)          # merged over all shards: exact number of distinct states
                 elif s not in seen:
                     nleaves += 1                        # level-3 states are only de-duplicated inside the shard
@@ -586,9 +608,9 @@ def run_shard(desc):
                     if len(h) == 2 and len(sh.samples) < 1 and op[0] in INPLACE and last == "ok" and hist[0][0] == "bin":
                         sh.sample(dict(pool=pname, history=h))
         frontier = nxt
-    if depth == 3:
+    if tier == "thorough":
         sh.add_extra("level3_states_counted_per_shard", nleaves)
-    if depth == 2:
+    elif not twin:
         sh.add_extra("level3_transitions_left_to_thorough",
                      sum(len(alphabet(pname, n, probe=True)) for _, n in frontier))
     leak = isolation.tables_restore()
@@ -625,7 +647,7 @@ def finish(total, tier, seed):
         raise HarnessError("operations that never succeeded anywhere: %r" % missing)
     if os.environ.get("C07_POOLS"):
         print("NOTE: C07_POOLS set - partial development run, evidence is not a full run")
-    return dict(states=len(states), states_note="distinct canonical states reached within 2 steps, merged over all "
+    return dict(states=len(states), states_note="distinct canonical states reached within 2 steps (twin pools: 3), merged over all "
                 "shards; states first reached by a third step are counted per shard in "
                 "level3_states_counted_per_shard (an upper bound of their distinct number)",
                 pools=sorted(POOLS) if not os.environ.get("C07_POOLS") else os.environ["C07_POOLS"].split(","),
